@@ -1,14 +1,402 @@
-//! Stream `sparql` — probe version.
+//! Stream `sparql` — SPARQL queries and updates from the core grammar, rendered as text and run
+//! through the real front end over a triple set given in the op line (C13, query level).
+//!
+//!   sparql sel <io> <triples> <scan> <n> <d>;<proj>;<order>;<off>;<lim>;<group>
+//!   sparql chk <io> <triples> <scan> <n> <same as sel>       (unordered slice: size + containment)
+//!   sparql cnt <io> <triples> <scan> <n> <d>;<arg>;<alias>;<groupBy>;<order>;<off>;<lim>;<group>
+//!   sparql upd <io> <triples> <scan> <n> <update>
+//!   sparql raw <io> <triples> <hex of query text>            (debugging aid, not generated)
+//!   sparql order <io> <triples>                              (debugging aid: the store's scan order)
+//!
+//! `io` = 1: `GrafeoDB` + `Session::execute_sparql` (object index on, the only configuration the
+//! database offers); `io` = 0: the same pipeline (translate → optimize → `RdfPlanner` → `Executor`)
+//! over an `RdfStore` without object index.
 #![allow(unused)]
-use crate::rdf::term;
 use crate::util::*;
 use grafeo_common::types::Value;
-use grafeo_core::graph::rdf::{RdfStore, RdfStoreConfig, Term, Triple};
-use grafeo_engine::database::GrafeoDB;
+use grafeo_core::graph::rdf::{RdfStore, RdfStoreConfig, Term, Triple, TriplePattern};
+use grafeo_engine::database::{GrafeoDB, QueryResult};
 use grafeo_engine::query::{Executor, Optimizer, RdfPlanner};
 use std::sync::Arc;
 
-pub fn generate(_seed: u64, _cases: usize, _out: &mut Vec<String>) {}
+// ------------------------------------------------------------------ the term pool
+
+const XSD: &str = "http://www.w3.org/2001/XMLSchema#";
+pub const POOL: usize = 23;
+
+/// Structurally distinct terms with look-alikes (extends the pool of stream `rdf`).
+pub fn sterm(code: usize) -> Term {
+    match code {
+        0 => Term::iri("http://ex.org/a"),
+        1 => Term::iri("http://ex.org/b"),
+        2 => Term::iri("http://ex.org/p"),
+        3 => Term::iri("x"),
+        4 => Term::blank("x"),
+        5 => Term::blank("b1"),
+        6 => Term::literal("x"),
+        7 => Term::lang_literal("x", "en"),
+        8 => Term::lang_literal("x", "de"),
+        9 => Term::typed_literal("x", format!("{XSD}token")),
+        10 => Term::typed_literal("1", format!("{XSD}integer")),
+        11 => Term::literal("1"),
+        12 => Term::literal(""),
+        16 => Term::literal("_:x"),
+        17 => Term::literal("_:b1"),
+        18 => Term::literal("http://ex.org/a"),
+        19 => Term::literal("10"),
+        20 => Term::literal("9"),
+        21 => Term::typed_literal("10", format!("{XSD}integer")),
+        22 => Term::typed_literal("9", format!("{XSD}integer")),
+        _ => Term::iri(format!("http://ex.org/n{}", code)),
+    }
+}
+
+fn lex_str(code: usize) -> String {
+    match sterm(code) {
+        Term::Iri(i) => i.as_str().to_string(),
+        Term::BlankNode(b) => format!("_:{}", b.id()),
+        Term::Literal(l) => l.value().to_string(),
+    }
+}
+
+/// identifier of a lexical form: the smallest code written that way
+fn lex_of_str(s: &str) -> String {
+    match (0..POOL + 8).find(|c| lex_str(*c) == s) {
+        Some(c) => c.to_string(),
+        None => format!("?{}", hex(s.as_bytes())),
+    }
+}
+
+fn code_of(t: &Term) -> String {
+    match (0..POOL + 8).find(|c| &sterm(*c) == t) {
+        Some(c) => c.to_string(),
+        None => format!("?{}", hex(t.to_string().as_bytes())),
+    }
+}
+
+/// a constant as SPARQL text
+fn render_const(code: usize) -> String {
+    match sterm(code) {
+        Term::Iri(i) => format!("<{}>", i.as_str()),
+        Term::BlankNode(b) => format!("_:{}", b.id()),
+        Term::Literal(l) => {
+            if let Some(lang) = l.language() {
+                format!("\"{}\"@{}", l.value(), lang)
+            } else if l.is_simple() {
+                format!("\"{}\"", l.value())
+            } else {
+                format!("\"{}\"^^<{}>", l.value(), l.datatype())
+            }
+        }
+    }
+}
+
+// ------------------------------------------------------------------ abstract syntax
+
+#[derive(Clone, Debug)]
+enum PT {
+    Var(usize),
+    Const(usize),
+}
+type TP = [PT; 3];
+#[derive(Clone, Debug)]
+enum Expr {
+    Eq(PT, PT),
+    Ne(PT, PT),
+    Lt(PT, PT),
+    Bound(usize),
+    Not(Box<Expr>),
+    And(Box<Expr>, Box<Expr>),
+    Or(Box<Expr>, Box<Expr>),
+}
+#[derive(Clone, Debug)]
+enum Elem {
+    Triples(Vec<TP>),
+    Optional(Vec<Elem>),
+    Union(Vec<Elem>, Vec<Elem>),
+    Group(Vec<Elem>),
+    Filter(Expr),
+}
+
+fn pt_tok(p: &PT) -> String {
+    match p {
+        PT::Var(v) => format!("v{}", v),
+        PT::Const(c) => format!("c{}", c),
+    }
+}
+fn tp_tok(t: &TP) -> String {
+    format!("{}.{}.{}", pt_tok(&t[0]), pt_tok(&t[1]), pt_tok(&t[2]))
+}
+fn tps_tok(ts: &[TP]) -> String {
+    ts.iter().map(tp_tok).collect::<Vec<_>>().join("/")
+}
+fn expr_tok(e: &Expr) -> String {
+    match e {
+        Expr::Eq(a, b) => format!("e({},{})", pt_tok(a), pt_tok(b)),
+        Expr::Ne(a, b) => format!("n({},{})", pt_tok(a), pt_tok(b)),
+        Expr::Lt(a, b) => format!("l({},{})", pt_tok(a), pt_tok(b)),
+        Expr::Bound(v) => format!("b(v{})", v),
+        Expr::Not(e) => format!("!({})", expr_tok(e)),
+        Expr::And(a, b) => format!("&({},{})", expr_tok(a), expr_tok(b)),
+        Expr::Or(a, b) => format!("|({},{})", expr_tok(a), expr_tok(b)),
+    }
+}
+fn grp_tok(g: &[Elem]) -> String {
+    g.iter()
+        .map(|e| match e {
+            Elem::Triples(ts) => format!("T[{}]", tps_tok(ts)),
+            Elem::Optional(g) => format!("O{{{}}}", grp_tok(g)),
+            Elem::Union(a, b) => format!("U{{{}}}{{{}}}", grp_tok(a), grp_tok(b)),
+            Elem::Group(g) => format!("G{{{}}}", grp_tok(g)),
+            Elem::Filter(e) => format!("F({})", expr_tok(e)),
+        })
+        .collect()
+}
+
+// ---- parsing (the same grammar as the Lean driver)
+
+struct P<'a> {
+    s: &'a [u8],
+    i: usize,
+}
+impl<'a> P<'a> {
+    fn peek(&self) -> u8 {
+        *self.s.get(self.i).unwrap_or(&0)
+    }
+    fn eat(&mut self, c: u8) {
+        assert_eq!(self.peek(), c, "expected {} at {}", c as char, self.i);
+        self.i += 1;
+    }
+    fn until(&mut self, stop: u8) -> &'a str {
+        let st = self.i;
+        while self.peek() != stop {
+            assert!(self.i < self.s.len());
+            self.i += 1;
+        }
+        let r = std::str::from_utf8(&self.s[st..self.i]).unwrap();
+        self.i += 1;
+        r
+    }
+    fn pt(s: &str) -> PT {
+        match s.as_bytes()[0] {
+            b'v' => PT::Var(s[1..].parse().unwrap()),
+            b'c' => PT::Const(s[1..].parse().unwrap()),
+            _ => panic!("pt {}", s),
+        }
+    }
+    fn tps(s: &str) -> Vec<TP> {
+        if s.is_empty() || s == "-" {
+            return vec![];
+        }
+        s.split('/')
+            .map(|t| {
+                let p: Vec<&str> = t.split('.').collect();
+                assert_eq!(p.len(), 3);
+                [Self::pt(p[0]), Self::pt(p[1]), Self::pt(p[2])]
+            })
+            .collect()
+    }
+    fn expr(&mut self) -> Expr {
+        let k = self.peek();
+        self.i += 1;
+        self.eat(b'(');
+        match k {
+            b'e' | b'n' | b'l' => {
+                let a = Self::pt(self.until(b','));
+                let b = Self::pt(self.until(b')'));
+                match k {
+                    b'e' => Expr::Eq(a, b),
+                    b'n' => Expr::Ne(a, b),
+                    _ => Expr::Lt(a, b),
+                }
+            }
+            b'b' => match Self::pt(self.until(b')')) {
+                PT::Var(v) => Expr::Bound(v),
+                _ => panic!("bound"),
+            },
+            b'!' => {
+                let e = self.expr();
+                self.eat(b')');
+                Expr::Not(Box::new(e))
+            }
+            b'&' | b'|' => {
+                let a = self.expr();
+                self.eat(b',');
+                let b = self.expr();
+                self.eat(b')');
+                if k == b'&' { Expr::And(Box::new(a), Box::new(b)) } else { Expr::Or(Box::new(a), Box::new(b)) }
+            }
+            _ => panic!("expr"),
+        }
+    }
+    fn grp(&mut self) -> Vec<Elem> {
+        let mut out = vec![];
+        loop {
+            match self.peek() {
+                0 | b'}' => return out,
+                b'T' => {
+                    self.i += 1;
+                    self.eat(b'[');
+                    out.push(Elem::Triples(Self::tps(self.until(b']'))));
+                }
+                b'O' | b'G' => {
+                    let k = self.peek();
+                    self.i += 1;
+                    self.eat(b'{');
+                    let g = self.grp();
+                    self.eat(b'}');
+                    out.push(if k == b'O' { Elem::Optional(g) } else { Elem::Group(g) });
+                }
+                b'U' => {
+                    self.i += 1;
+                    self.eat(b'{');
+                    let a = self.grp();
+                    self.eat(b'}');
+                    self.eat(b'{');
+                    let b = self.grp();
+                    self.eat(b'}');
+                    out.push(Elem::Union(a, b));
+                }
+                b'F' => {
+                    self.i += 1;
+                    self.eat(b'(');
+                    let e = self.expr();
+                    self.eat(b')');
+                    out.push(Elem::Filter(e));
+                }
+                c => panic!("grp {}", c as char),
+            }
+        }
+    }
+}
+
+fn parse_group(s: &str) -> Vec<Elem> {
+    let mut p = P { s: s.as_bytes(), i: 0 };
+    let g = p.grp();
+    assert_eq!(p.i, s.len());
+    g
+}
+
+// ---- rendering as SPARQL text
+
+fn pt_text(p: &PT) -> String {
+    match p {
+        PT::Var(v) => format!("?v{}", v),
+        PT::Const(c) => render_const(*c),
+    }
+}
+fn tps_text(ts: &[TP]) -> String {
+    ts.iter().map(|t| format!("{} {} {}", pt_text(&t[0]), pt_text(&t[1]), pt_text(&t[2]))).collect::<Vec<_>>().join(" . ")
+}
+fn expr_text(e: &Expr) -> String {
+    match e {
+        Expr::Eq(a, b) => format!("({} = {})", pt_text(a), pt_text(b)),
+        Expr::Ne(a, b) => format!("({} != {})", pt_text(a), pt_text(b)),
+        Expr::Lt(a, b) => format!("({} < {})", pt_text(a), pt_text(b)),
+        Expr::Bound(v) => format!("BOUND(?v{})", v),
+        Expr::Not(e) => format!("(!{})", expr_text(e)),
+        Expr::And(a, b) => format!("({} && {})", expr_text(a), expr_text(b)),
+        Expr::Or(a, b) => format!("({} || {})", expr_text(a), expr_text(b)),
+    }
+}
+fn grp_text(g: &[Elem]) -> String {
+    let parts: Vec<String> = g
+        .iter()
+        .map(|e| match e {
+            Elem::Triples(ts) => format!("{} .", tps_text(ts)),
+            Elem::Optional(g) => format!("OPTIONAL {}", grp_text(g)),
+            Elem::Union(a, b) => format!("{} UNION {}", grp_text(a), grp_text(b)),
+            Elem::Group(g) => grp_text(g),
+            Elem::Filter(e) => format!("FILTER({})", expr_text(e)),
+        })
+        .collect();
+    format!("{{ {} }}", parts.join(" "))
+}
+
+fn order_text(ord: &str) -> String {
+    if ord == "-" {
+        return String::new();
+    }
+    let ks: Vec<String> = ord
+        .split(',')
+        .map(|k| {
+            let (v, d) = k.split_at(k.len() - 1);
+            if d == "d" { format!("DESC(?v{})", v) } else { format!("?v{}", v) }
+        })
+        .collect();
+    format!(" ORDER BY {}", ks.join(" "))
+}
+
+fn slice_text(off: &str, lim: &str) -> String {
+    let mut s = String::new();
+    if lim != "-" {
+        s += &format!(" LIMIT {}", lim);
+    }
+    if off != "-" {
+        s += &format!(" OFFSET {}", off);
+    }
+    s
+}
+
+pub fn select_text(q: &str, with_slice: bool) -> String {
+    let f: Vec<&str> = q.split(';').collect();
+    assert_eq!(f.len(), 6);
+    let proj = if f[1] == "*" { "*".to_string() } else { f[1].split(',').map(|v| format!("?v{}", v)).collect::<Vec<_>>().join(" ") };
+    format!(
+        "SELECT {}{} WHERE {}{}{}",
+        if f[0] == "1" { "DISTINCT " } else { "" },
+        proj,
+        grp_text(&parse_group(f[5])),
+        order_text(f[2]),
+        if with_slice { slice_text(f[3], f[4]) } else { String::new() }
+    )
+}
+
+pub fn count_text(q: &str) -> String {
+    let f: Vec<&str> = q.split(';').collect();
+    assert_eq!(f.len(), 8);
+    let arg = if f[1] == "*" { "*".to_string() } else { format!("?v{}", f[1]) };
+    let gb: Vec<String> = if f[3] == "-" { vec![] } else { f[3].split(',').map(|v| format!("?v{}", v)).collect() };
+    format!(
+        "SELECT {}{}(COUNT({}{}) AS ?v{}) WHERE {}{}{}{}",
+        gb.join(" "),
+        if gb.is_empty() { "" } else { " " },
+        if f[0] == "1" { "DISTINCT " } else { "" },
+        arg,
+        f[2],
+        grp_text(&parse_group(f[7])),
+        if gb.is_empty() { String::new() } else { format!(" GROUP BY {}", gb.join(" ")) },
+        order_text(f[4]),
+        slice_text(f[5], f[6])
+    )
+}
+
+pub fn update_text(u: &str) -> String {
+    let inner = |s: &str| -> String { tps_text(&P::tps(s)) };
+    if let Some(r) = u.strip_prefix("ID[") {
+        format!("INSERT DATA {{ {} }}", inner(r.strip_suffix(']').unwrap()))
+    } else if let Some(r) = u.strip_prefix("DD[") {
+        format!("DELETE DATA {{ {} }}", inner(r.strip_suffix(']').unwrap()))
+    } else if let Some(r) = u.strip_prefix("DW[") {
+        format!("DELETE WHERE {{ {} }}", inner(r.strip_suffix(']').unwrap()))
+    } else if let Some(r) = u.strip_prefix("MO[") {
+        let (d, r) = r.split_once("][").unwrap();
+        let (i, r) = r.split_once("]{").unwrap();
+        let g = r.strip_suffix('}').unwrap();
+        let mut s = String::new();
+        if !(d.is_empty() || d == "-") {
+            s += &format!("DELETE {{ {} }} ", inner(d));
+        }
+        if !(i.is_empty() || i == "-") {
+            s += &format!("INSERT {{ {} }} ", inner(i));
+        }
+        s + &format!("WHERE {}", grp_text(&parse_group(g)))
+    } else {
+        panic!("update {}", u)
+    }
+}
+
+// ------------------------------------------------------------------ running
 
 fn parse_triples(s: &str) -> Vec<(usize, usize, usize)> {
     if s == "-" {
@@ -22,55 +410,526 @@ fn parse_triples(s: &str) -> Vec<(usize, usize, usize)> {
         .collect()
 }
 
-fn cell(v: &Value) -> String {
+struct Db {
+    db: Option<GrafeoDB>,
+    store: Arc<RdfStore>,
+}
+
+fn build(io: &str, ts: &str) -> Db {
+    let (db, store) = if io == "1" {
+        let db = GrafeoDB::new_in_memory();
+        let st = Arc::clone(db.rdf_store());
+        (Some(db), st)
+    } else {
+        let cap = RdfStoreConfig::default().initial_capacity;
+        (None, Arc::new(RdfStore::with_config(RdfStoreConfig { initial_capacity: cap, index_objects: false })))
+    };
+    for (s, p, o) in parse_triples(ts) {
+        store.insert(Triple::new(sterm(s), sterm(p), sterm(o)));
+    }
+    Db { db, store }
+}
+
+impl Db {
+    fn exec(&self, q: &str) -> Result<QueryResult, String> {
+        let r = match &self.db {
+            Some(db) => db.session().execute_sparql(q),
+            None => (|| {
+                let lp = grafeo_engine::query::translate_sparql(q)?;
+                let before = format!("{:?}", lp.root);
+                let opt = Optimizer::new().optimize(lp)?;
+                // the optimizer is expected to leave these plans alone; the model relies on it
+                assert_eq!(format!("{:?}", opt.root), before, "optimizer changed the plan");
+                let mut pp = RdfPlanner::new(Arc::clone(&self.store)).plan(&opt)?;
+                Executor::with_columns(pp.columns.clone()).execute(pp.operator.as_mut())
+            })(),
+        };
+        r.map_err(|e| e.to_string().lines().next().unwrap_or("").to_string())
+    }
+    fn dump(&self) -> String {
+        let mut v: Vec<String> = self.store.triples().iter().map(|t| format!("{}.{}.{}", code_of(t.subject()), code_of(t.predicate()), code_of(t.object()))).collect();
+        v.sort();
+        v.join(",")
+    }
+}
+
+fn var_no(name: &str) -> String {
+    name.strip_prefix('v').map(|s| s.to_string()).unwrap_or_else(|| format!("?{}", hex(name.as_bytes())))
+}
+
+fn show_cell(v: &Value) -> String {
     match v {
         Value::Null => "~".into(),
-        Value::String(s) => format!("[{}]", s),
-        other => format!("{:?}", other),
+        Value::String(s) => lex_of_str(s),
+        Value::Int64(i) => format!("#{}", i),
+        other => format!("?{}", hex(format!("{:?}", other).as_bytes())),
+    }
+}
+
+/// canonical text of a result: `<sorted column numbers>|<row>;<row>…`; a row is `v=cell,…` sorted,
+/// nulls left out; a row whose width is not the header's is `!cell,cell`
+fn show_result(r: &QueryResult, ordered: &[String]) -> String {
+    let cols: Vec<String> = r.columns.iter().map(|c| var_no(c)).collect();
+    let mut hdr: Vec<u64> = cols.iter().map(|c| c.parse::<u64>().unwrap_or(u64::MAX)).collect();
+    hdr.sort();
+    let row_text = |row: &Vec<Value>| -> String {
+        if row.len() != cols.len() {
+            return format!("!{}", row.iter().map(show_cell).collect::<Vec<_>>().join(","));
+        }
+        let mut ps: Vec<String> = cols.iter().zip(row.iter()).filter(|(_, v)| !matches!(v, Value::Null)).map(|(c, v)| format!("{}={}", c, show_cell(v))).collect();
+        ps.sort();
+        ps.join(",")
+    };
+    let body: Vec<String> = if ordered.is_empty() {
+        let mut b: Vec<String> = r.rows.iter().map(row_text).collect();
+        b.sort();
+        b
+    } else {
+        // ties of the sort keys in a canonical order
+        let keyed: Vec<(Vec<String>, String)> = r
+            .rows
+            .iter()
+            .map(|row| {
+                let k = ordered
+                    .iter()
+                    .map(|kv| match cols.iter().position(|c| c == kv) {
+                        Some(i) if row.len() == cols.len() => show_cell(&row[i]),
+                        _ => "~".to_string(),
+                    })
+                    .collect();
+                (k, row_text(row))
+            })
+            .collect();
+        let mut out = vec![];
+        let mut i = 0;
+        while i < keyed.len() {
+            let mut j = i + 1;
+            while j < keyed.len() && keyed[j].0 == keyed[i].0 {
+                j += 1;
+            }
+            let mut run: Vec<String> = keyed[i..j].iter().map(|x| x.1.clone()).collect();
+            run.sort();
+            out.extend(run);
+            i = j;
+        }
+        out
+    };
+    format!("{}|{}", hdr.iter().map(|h| h.to_string()).collect::<Vec<_>>().join(","), body.join(";"))
+}
+
+fn order_vars(ord: &str) -> Vec<String> {
+    if ord == "-" { vec![] } else { ord.split(',').map(|k| k[..k.len() - 1].to_string()).collect() }
+}
+
+fn body_rows(s: &str) -> Vec<String> {
+    match s.split_once('|') {
+        Some((_, b)) if !b.is_empty() => b.split(';').map(|x| x.to_string()).collect(),
+        _ => vec![],
+    }
+}
+
+fn sub_bag(small: &[String], big: &[String]) -> bool {
+    let mut rest: Vec<String> = big.to_vec();
+    for x in small {
+        match rest.iter().position(|y| y == x) {
+            Some(i) => {
+                rest.remove(i);
+            }
+            None => return false,
+        }
+    }
+    true
+}
+
+fn run_text(db: &Db, text: &str, ordered: &[String]) -> String {
+    match db.exec(text) {
+        Ok(r) => show_result(&r, ordered),
+        Err(_) => "err".into(),
     }
 }
 
 pub fn run(args: &[&str]) -> String {
     let a = args.to_vec();
     guarded(move || match a.as_slice() {
+        ["sel", io, ts, _scan, _n, q] => {
+            let db = build(io, ts);
+            let f: Vec<&str> = q.split(';').collect();
+            run_text(&db, &select_text(q, true), &order_vars(f[2]))
+        }
+        ["chk", io, ts, _scan, _n, q] => {
+            let db = build(io, ts);
+            let sliced = run_text(&db, &select_text(q, true), &[]);
+            let whole = run_text(&db, &select_text(q, false), &[]);
+            if sliced == "err" || whole == "err" {
+                "err".into()
+            } else {
+                let (s, w) = (body_rows(&sliced), body_rows(&whole));
+                format!("n={};sub={}", s.len(), if sub_bag(&s, &w) { 1 } else { 0 })
+            }
+        }
+        ["cnt", io, ts, _scan, _n, q] => {
+            let db = build(io, ts);
+            let f: Vec<&str> = q.split(';').collect();
+            run_text(&db, &count_text(q), &order_vars(f[4]))
+        }
+        ["upd", io, ts, _scan, _n, u] => {
+            let db = build(io, ts);
+            let r = db.exec(&update_text(u));
+            let after = run_text(&db, "SELECT * WHERE { ?v0 ?v1 ?v2 }", &[]);
+            format!("{}{}/{}", if r.is_err() { "err:" } else { "" }, db.dump(), after)
+        }
+        ["text", kind, q] => match *kind {
+            "sel" | "chk" => select_text(q, true),
+            "cnt" => count_text(q),
+            _ => update_text(q),
+        },
+        ["order", io, ts] => {
+            let db = build(io, ts);
+            scan_order(&db.store)
+        }
         ["raw", io, ts, hexq] => {
             let q = String::from_utf8(unhex(hexq).unwrap()).unwrap();
-            let db = GrafeoDB::new_in_memory();
-            let store: Arc<RdfStore> = if *io == "1" {
-                Arc::clone(db.rdf_store())
-            } else {
-                Arc::new(RdfStore::with_config(RdfStoreConfig { initial_capacity: 16, index_objects: false }))
-            };
-            for (s, p, o) in parse_triples(ts) {
-                store.insert(Triple::new(term(s), term(p), term(o)));
-            }
-            let res = if *io == "1" {
-                db.session().execute_sparql(&q)
-            } else {
-                (|| {
-                    let lp = grafeo_engine::query::translate_sparql(&q)?;
-                    let before = format!("{:?}", lp.root);
-                    let opt = Optimizer::new().optimize(lp)?;
-                    if format!("{:?}", opt.root) != before {
-                        println!("# OPTIMIZER CHANGED PLAN");
-                    }
-                    let mut pp = RdfPlanner::new(Arc::clone(&store)).plan(&opt)?;
-                    Executor::with_columns(pp.columns.clone()).execute(pp.operator.as_mut())
-                })()
-            };
-            let mut out = match res {
+            let db = build(io, ts);
+            let out = match db.exec(&q) {
                 Ok(r) => format!(
                     "cols={} rows={}",
                     r.columns.join(","),
-                    r.rows.iter().map(|row| row.iter().map(cell).collect::<Vec<_>>().join(",")).collect::<Vec<_>>().join(" | ")
+                    r.rows.iter().map(|row| row.iter().map(|v| format!("{:?}", v)).collect::<Vec<_>>().join(",")).collect::<Vec<_>>().join(" | ")
                 ),
-                Err(e) => format!("ERR {}", e.to_string().lines().next().unwrap_or("")),
+                Err(e) => format!("ERR {}", e),
             };
-            let mut ts: Vec<String> = store.triples().iter().map(|t| format!("{} {} {}", t.subject(), t.predicate(), t.object())).collect();
-            ts.sort();
-            out += &format!("   STORE: {}", ts.join(" . "));
-            out
+            format!("{}   STORE: {}", out, db.dump())
         }
         _ => "bad-op".into(),
     })
+}
+
+/// the distinct triples in the iteration order of the primary hash set
+fn scan_order(store: &RdfStore) -> String {
+    let v: Vec<String> = store
+        .find(&TriplePattern { subject: None, predicate: None, object: None })
+        .iter()
+        .map(|t| format!("{}.{}.{}", code_of(t.subject()), code_of(t.predicate()), code_of(t.object())))
+        .collect();
+    if v.is_empty() { "-".into() } else { v.join(",") }
+}
+
+// ------------------------------------------------------------------ generation
+
+struct Gen {
+    r: Rng,
+    nv: usize,
+    /// constants that occur in the data (by position class) and some that do not
+    subj: Vec<usize>,
+    pred: Vec<usize>,
+    obj: Vec<usize>,
+}
+
+impl Gen {
+    fn var(&mut self) -> PT {
+        PT::Var(self.r.below(self.nv as u64) as usize)
+    }
+    fn pos(&mut self, pool: &[usize], p_var: u64) -> PT {
+        if self.r.chance(p_var, 100) { self.var() } else { PT::Const(*self.r.pick(pool)) }
+    }
+    fn tp(&mut self, linear: bool) -> TP {
+        loop {
+            let (sp, pp, op) = (self.subj.clone(), self.pred.clone(), self.obj.clone());
+            let t = [self.pos(&sp, 75), self.pos(&pp, 35), self.pos(&op, 65)];
+            let vs: Vec<usize> = t.iter().filter_map(|p| if let PT::Var(v) = p { Some(*v) } else { None }).collect();
+            let mut d = vs.clone();
+            d.sort();
+            d.dedup();
+            if !linear || d.len() == vs.len() {
+                return t;
+            }
+        }
+    }
+    fn triples(&mut self) -> Elem {
+        let k = match self.r.below(10) {
+            0..=5 => 1,
+            6..=8 => 2,
+            _ => 3,
+        };
+        // mostly linear patterns; now and then `?s ?p ?s`
+        let ts = (0..k).map(|_| { let lin = !self.r.chance(1, 12); self.tp(lin) }).collect();
+        Elem::Triples(ts)
+    }
+    fn atom(&mut self) -> Expr {
+        let consts: Vec<usize> = vec![0, 1, 3, 6, 7, 10, 11, 12, 18, 19, 20, 22];
+        let a = self.var();
+        let b = if self.r.chance(1, 3) { self.var() } else { PT::Const(*self.r.pick(&consts)) };
+        match self.r.below(10) {
+            0..=3 => Expr::Eq(a, b),
+            4..=5 => Expr::Ne(a, b),
+            6..=7 => Expr::Lt(a, b),
+            _ => Expr::Bound(self.r.below(self.nv as u64 + 1) as usize),
+        }
+    }
+    fn expr(&mut self, depth: u32) -> Expr {
+        if depth == 0 || self.r.chance(3, 5) {
+            return self.atom();
+        }
+        match self.r.below(3) {
+            0 => Expr::Not(Box::new(self.expr(depth - 1))),
+            1 => Expr::And(Box::new(self.expr(depth - 1)), Box::new(self.expr(depth - 1))),
+            _ => Expr::Or(Box::new(self.expr(depth - 1)), Box::new(self.expr(depth - 1))),
+        }
+    }
+    fn group(&mut self, depth: u32) -> Vec<Elem> {
+        let mut g = vec![];
+        if !self.r.chance(1, 25) {
+            g.push(self.triples());
+        }
+        let extra = match self.r.below(10) {
+            0..=3 => 0,
+            4..=7 => 1,
+            _ => 2,
+        };
+        for _ in 0..extra {
+            match self.r.below(if depth == 0 { 3 } else { 10 }) {
+                0 => g.push(self.triples()),
+                1 | 2 => g.push(Elem::Filter(self.expr(2))),
+                3..=5 => {
+                    let inner = self.group(depth - 1);
+                    g.push(Elem::Optional(inner));
+                }
+                6 | 7 => {
+                    let a = self.group(depth - 1);
+                    // often the same shape with other constants, so that the columns line up
+                    let b = if self.r.chance(1, 2) { self.retarget(&a) } else { self.group(depth - 1) };
+                    g.push(Elem::Union(a, b));
+                }
+                _ => {
+                    let inner = self.group(depth - 1);
+                    g.push(Elem::Group(inner));
+                }
+            }
+        }
+        if g.len() > 1 && self.r.chance(1, 6) {
+            // an OPTIONAL in front of a required pattern, or a filter first
+            g.rotate_right(1);
+        }
+        g
+    }
+    /// the same group with some constants replaced
+    fn retarget(&mut self, g: &[Elem]) -> Vec<Elem> {
+        g.iter()
+            .map(|e| match e {
+                Elem::Triples(ts) => Elem::Triples(
+                    ts.iter()
+                        .map(|t| {
+                            let mut t = t.clone();
+                            if let PT::Const(_) = t[1] {
+                                t[1] = PT::Const(*self.r.pick(&self.pred.clone()));
+                            }
+                            if let PT::Const(_) = t[2] {
+                                t[2] = PT::Const(*self.r.pick(&self.obj.clone()));
+                            }
+                            t
+                        })
+                        .collect(),
+                ),
+                other => other.clone(),
+            })
+            .collect()
+    }
+}
+
+fn grp_vars(g: &[Elem], out: &mut Vec<usize>) {
+    for e in g {
+        match e {
+            Elem::Triples(ts) => {
+                for t in ts {
+                    for p in t {
+                        if let PT::Var(v) = p {
+                            if !out.contains(v) {
+                                out.push(*v);
+                            }
+                        }
+                    }
+                }
+            }
+            Elem::Optional(g) | Elem::Group(g) => grp_vars(g, out),
+            Elem::Union(a, b) => {
+                grp_vars(a, out);
+                grp_vars(b, out);
+            }
+            Elem::Filter(_) => {}
+        }
+    }
+}
+
+fn gen_data(r: &mut Rng) -> Vec<(usize, usize, usize)> {
+    let small = r.chance(1, 2);
+    let subj: &[usize] = if small { &[0, 1, 3, 4] } else { &[0, 1, 3, 4, 5, 13] };
+    let pred: &[usize] = if small { &[2, 3] } else { &[2, 3, 0, 14] };
+    let obj: &[usize] = if small { &[0, 1, 3, 6, 7, 10, 11] } else { &[0, 1, 3, 4, 5, 6, 7, 8, 9, 10, 11, 12, 13, 16, 18, 19, 20, 21, 22] };
+    let n = r.range(0, if small { 8 } else { 14 });
+    let mut v: Vec<(usize, usize, usize)> = vec![];
+    for _ in 0..n {
+        if !v.is_empty() && r.chance(1, 8) {
+            let d = *r.pick(&v);
+            v.push(d); // duplicate
+        } else {
+            v.push((*r.pick(subj), *r.pick(pred), *r.pick(obj)));
+        }
+    }
+    v
+}
+
+fn triples_arg(v: &[(usize, usize, usize)]) -> String {
+    if v.is_empty() { "-".into() } else { v.iter().map(|(a, b, c)| format!("{}.{}.{}", a, b, c)).collect::<Vec<_>>().join(",") }
+}
+
+pub fn generate(seed: u64, cases: usize, out: &mut Vec<String>) {
+    if std::env::var("VH_LOUD").is_ok() { std::panic::set_hook(Box::new(|i| eprintln!("{}", i))); }
+    let mut r = Rng::new(seed ^ 0x73_7061_7271);
+    for c in 0..cases {
+        out.push(format!("# case {} seed {}", c, seed));
+        let data = gen_data(&mut r);
+        let io = if r.chance(1, 2) { "1" } else { "0" };
+        let ts = triples_arg(&data);
+        // the iteration order of the real hash set (the same for both configurations)
+        let scan = scan_order(&build(io, &ts).store);
+        let nv = r.range(2, 5) as usize;
+        let mut g = Gen {
+            r: Rng::new(r.next()),
+            nv,
+            subj: vec![0, 1, 3, 13],
+            pred: vec![2, 3, 0, 14],
+            obj: vec![0, 1, 3, 6, 7, 9, 10, 11, 12, 18, 19, 20],
+        };
+        let n_lines = r.range(2, 5);
+        for _ in 0..n_lines {
+            let head = format!("{} {} {} {}", io, ts, scan, nv + 1);
+            match r.below(100) {
+                0..=59 => {
+                    let grp = g.group(2);
+                    let mut vars = vec![];
+                    grp_vars(&grp, &mut vars);
+                    let distinct = r.chance(1, 5);
+                    // projection: `*`, a subset of the variables in scope, rarely one out of scope
+                    let proj: Option<Vec<usize>> = if vars.is_empty() || r.chance(1, 2) {
+                        None
+                    } else {
+                        let mut p: Vec<usize> = vars.iter().filter(|_| r.chance(2, 3)).cloned().collect();
+                        if p.is_empty() {
+                            p.push(vars[0]);
+                        }
+                        if r.chance(1, 25) {
+                            p.push(nv);
+                        }
+                        Some(p)
+                    };
+                    let visible: Vec<usize> = proj.clone().unwrap_or(vars.clone());
+                    let slice = r.chance(1, 3);
+                    // ORDER BY over visible variables; with a slice: over all of them (total keys)
+                    let order: Vec<(usize, bool)> = if visible.is_empty() || !(r.chance(1, 3) || (slice && r.chance(2, 3))) {
+                        vec![]
+                    } else if slice {
+                        let mut ks = visible.clone();
+                        let rot = r.below(ks.len() as u64) as usize;
+                        ks.rotate_left(rot);
+                        ks.iter().map(|v| (*v, r.chance(1, 3))).collect()
+                    } else {
+                        let k = r.range(1, 2.min(visible.len() as u64)) as usize;
+                        (0..k).map(|_| (*r.pick(&visible), r.chance(1, 3))).collect()
+                    };
+                    let (off, lim) = if slice {
+                        (if r.chance(1, 2) { Some(r.below(4)) } else { None }, if r.chance(3, 4) { Some(r.below(5)) } else { None })
+                    } else {
+                        (None, None)
+                    };
+                    let q = format!(
+                        "{};{};{};{};{};{}",
+                        if distinct { 1 } else { 0 },
+                        proj.map(|p| join(&p)).unwrap_or("*".into()),
+                        if order.is_empty() { "-".into() } else { order.iter().map(|(v, d)| format!("{}{}", v, if *d { "d" } else { "a" })).collect::<Vec<_>>().join(",") },
+                        off.map(|x| x.to_string()).unwrap_or("-".into()),
+                        lim.map(|x| x.to_string()).unwrap_or("-".into()),
+                        grp_tok(&grp)
+                    );
+                    out.push(format!("sparql sel {} {}", head, q));
+                    if (off.is_some() || lim.is_some()) && order.is_empty() {
+                        out.push(format!("sparql chk {} {}", head, q));
+                    }
+                }
+                60..=74 => {
+                    let grp = g.group(1);
+                    let mut vars = vec![];
+                    grp_vars(&grp, &mut vars);
+                    let alias = nv; // a variable that is not used in the pattern
+                    let arg = if vars.is_empty() || r.chance(1, 3) { None } else { Some(*r.pick(&vars)) };
+                    let distinct = arg.is_some() && r.chance(1, 3);
+                    let gb: Vec<usize> = if vars.is_empty() || r.chance(1, 2) { vec![] } else { vec![*r.pick(&vars)] };
+                    let mut keys = gb.clone();
+                    keys.push(alias);
+                    let order: Vec<(usize, bool)> = if r.chance(1, 4) { keys.iter().map(|v| (*v, r.chance(1, 3))).collect() } else { vec![] };
+                    let lim = if !order.is_empty() && r.chance(1, 2) { Some(r.below(4)) } else { None };
+                    let q = format!(
+                        "{};{};{};{};{};-;{};{}",
+                        if distinct { 1 } else { 0 },
+                        arg.map(|v| v.to_string()).unwrap_or("*".into()),
+                        alias,
+                        if gb.is_empty() { "-".into() } else { join(&gb) },
+                        if order.is_empty() { "-".into() } else { order.iter().map(|(v, d)| format!("{}{}", v, if *d { "d" } else { "a" })).collect::<Vec<_>>().join(",") },
+                        lim.map(|x| x.to_string()).unwrap_or("-".into()),
+                        grp_tok(&grp)
+                    );
+                    out.push(format!("sparql cnt {} {}", head, q));
+                }
+                _ => {
+                    // an update, observed by a dump of the store and by `SELECT *`
+                    let ground = |r: &mut Rng, data: &[(usize, usize, usize)]| -> TP {
+                        let t = if !data.is_empty() && r.chance(2, 3) {
+                            *r.pick(data)
+                        } else {
+                            (*r.pick(&[0usize, 1, 3, 13, 6]), *r.pick(&[2usize, 3, 14, 6]), *r.pick(&[0usize, 1, 3, 6, 7, 9, 10, 11, 12, 19, 22]))
+                        };
+                        // blank nodes cannot be written as constants
+                        let fix = |c: usize| if c == 4 || c == 5 { 0 } else { c };
+                        [PT::Const(fix(t.0)), PT::Const(fix(t.1)), PT::Const(fix(t.2))]
+                    };
+                    let u = match r.below(10) {
+                        0 | 1 => format!("ID[{}]", tps_tok(&(0..r.range(1, 3)).map(|_| ground(&mut r, &data)).collect::<Vec<_>>())),
+                        2 | 3 => format!("DD[{}]", tps_tok(&(0..r.range(1, 3)).map(|_| ground(&mut r, &data)).collect::<Vec<_>>())),
+                        4 | 5 => {
+                            let k = r.range(1, 2);
+                            let ts: Vec<TP> = (0..k).map(|_| if r.chance(1, 8) { ground(&mut r, &data) } else { g.tp(true) }).collect();
+                            format!("DW[{}]", tps_tok(&ts))
+                        }
+                        _ => {
+                            let grp = g.group(1);
+                            let mut vars = vec![];
+                            grp_vars(&grp, &mut vars);
+                            let mut tmpl = |gg: &mut Gen, r: &mut Rng| -> Vec<TP> {
+                                (0..r.range(1, 2))
+                                    .map(|_| {
+                                        let mut t = gg.tp(false);
+                                        // template variables mostly from the pattern
+                                        for p in t.iter_mut() {
+                                            if let PT::Var(_) = p {
+                                                if !vars.is_empty() && r.chance(9, 10) {
+                                                    *p = PT::Var(*r.pick(&vars));
+                                                }
+                                            }
+                                        }
+                                        t
+                                    })
+                                    .collect()
+                            };
+                            let (d, i) = match r.below(3) {
+                                0 => (tmpl(&mut g, &mut r), vec![]),
+                                1 => (vec![], tmpl(&mut g, &mut r)),
+                                _ => (tmpl(&mut g, &mut r), tmpl(&mut g, &mut r)),
+                            };
+                            format!("MO[{}][{}]{{{}}}", tps_tok(&d), tps_tok(&i), grp_tok(&grp))
+                        }
+                    };
+                    out.push(format!("sparql upd {} {}", head, u));
+                }
+            }
+        }
+    }
 }
